@@ -304,6 +304,10 @@ func (n *Node) setup(logDir string, requestID string) error {
 	n.mu.Lock()
 	defer n.mu.Unlock()
 
+	// A retried node is set up again: its new writers must be flushed and
+	// closed by the next teardown as well.
+	n.done = false
+
 	// Set the log file path
 	n.data.State.StartedAt = time.Now()
 	n.data.State.Log = filepath.Join(logDir, fmt.Sprintf("%s.%s.%s.log",
